@@ -4,8 +4,8 @@ import json, sys
 ENV = "GOFLAGS=-mod=mod GOPROXY=off GOSUMDB=off GOTOOLCHAIN=local"
 claimed = {
  "C04": dict(
-   text="Exhaustive preemption-bounded exploration of concurrent cache histories (update/insert/invalidate/SetMaximum, weight changes; caller-runs and default executors, capacity 1-3): at quiescence after CleanUp the total weight is within GetMaximum, oversized entries are gone, zero-weight entries were never evicted for size.",
-   note="2-3 threads x 1-2 ops, preemption bound 2 (quick) / 3 (thorough); SC interleavings at sync/atomic granularity.",
+   text="Exhaustive preemption-bounded exploration of concurrent cache histories (update/insert/invalidate/SetMaximum, weight changes; caller-runs and default executors, capacity 1-3): at quiescence after CleanUp the total weight is within GetMaximum, oversized entries are gone, zero-weight entries were never evicted for size; then the maximum is lowered to 1 and to 0 and the bound is checked again. Includes all operation pairs, all triples (three threads, one operation each) and all two-operations-against-one matrices on a full two-entry cache.",
+   note="2-3 threads x 1-2 ops, preemption bound 2 (quick; 1 for most triples) / 3 (thorough; 2 for triples); SC interleavings at sync/atomic granularity.",
    technique="stateless model checking of the implementation: controlled scheduler + preemption-bounded DFS, quiescence invariant",
    ref="5/C04"),
  "C05": dict(
@@ -54,11 +54,11 @@ claimed.update({
    note="Running total = model weight after the operation's own writes minus evictions already judged.",
    technique=SEQ, ref="5/C07"),
  "C10": dict(
-   text="Product of cache contents per key in {absent, fresh, refresh-due, expired-unswept}^3 x all 39 key lists of length <=3 over 3 keys (with duplicates) x 8 bulk loader shapes (full, partial, extra, partial+extra, empty, error, ErrNotFound, panic) and Get x 5 loader outcomes, in 4 configurations: result maps, errors, cache contents after the call and loader argument lists against the model.",
+   text="Product of cache contents per key in {absent, fresh, refresh-due, expired-unswept}^3 x all 39 key lists of length <=3 over 3 keys (with duplicates) x 8 bulk loader shapes (full, partial, extra, partial+extra, empty, error, ErrNotFound, panic) and Get x 5 loader outcomes, in 5 configurations: result maps, errors, cache contents after the call and loader argument lists against the model. Concurrent part (preemption bound 2/3): a key volunteered by one caller's bulk loader while another caller's load / reload of that key is in flight and fails, succeeds or reports not-found: the volunteered value is what the cache holds unless something else may decide the key.",
    note="Same-goroutine executor; behaviour of panicking reloads is not asserted.",
-   technique=SEQ, ref="5/C10"),
+   technique=SEQ + "; plus stateless model checking (controlled scheduler + preemption-bounded DFS) for the concurrent part", ref="5/C10"),
  "C11": dict(
-   text="All sequences up to depth 3/4 of reads/writes/loads/Refresh/BulkRefresh with every reload outcome, clock advances to refresh deadline -1/0/+1 and to expiry, on 2 keys, refresh {creating, writing} x expiry {none, writing} x executor {same-goroutine, deferred with an explicit run-executor symbol}: stale reads return the cached value and trigger exactly one Reload(key, old), fresh reads none, success swaps, failure keeps value and expiry, not-found removes, each explicit Refresh delivers exactly one result, nil channel without a refresh policy.",
+   text="All sequences up to depth 3/4 of reads/writes/loads/Refresh/BulkRefresh with every reload outcome, clock advances to refresh deadline -1/0/+1 and to expiry, on 2 keys, refresh {creating, writing} x expiry {none, writing, accessing} x executor {same-goroutine, deferred with an explicit run-executor symbol}: stale reads return the cached value and trigger exactly one Reload(key, old), fresh reads none, success swaps, failure keeps value and expiry, not-found removes, each explicit Refresh delivers exactly one result, nil channel without a refresh policy.",
    note="Concurrent readers during an in-flight reload are covered by the C08/C09 scenarios.",
    technique=SEQ, ref="5/C11"),
  "C12": dict(
